@@ -212,8 +212,10 @@ class Crazyflie():
         """Called from the link driver when there's an error"""
         logger.warning('Got link error callback [%s] in state [%s]',
                        errmsg, self.state)
-        if (self.link is not None):
-            self.link.close()
+        # Read the link once, another thread may set it to None at any time
+        link = self.link
+        if (link is not None):
+            link.close()
         self.link = None
         for timer in list(self._answer_patterns.values()):
             timer.cancel()
@@ -274,8 +276,9 @@ class Crazyflie():
                          ex, traceback.format_exc())
             exception_text = "Couldn't load link driver: %s\n\n%s" % (
                 ex, traceback.format_exc())
-            if self.link:
-                self.link.close()
+            link = self.link
+            if link:
+                link.close()
                 self.link = None
             self.connection_failed.call(link_uri, exception_text)
 
@@ -284,8 +287,9 @@ class Crazyflie():
         logger.info('Closing link')
         if (self.link is not None):
             self.commander.send_setpoint(0, 0, 0, 0)
-        if (self.link is not None):
-            self.link.close()
+        link = self.link
+        if (link is not None):
+            link.close()
             self.link = None
         for timer in list(self._answer_patterns.values()):
             timer.cancel()
@@ -356,9 +360,12 @@ class Crazyflie():
 
         self._send_lock.acquire()
         try:
-            if self.link is not None:
+            # Read the link once, a link error or close_link() on another
+            # thread sets it to None without taking the send lock
+            link = self.link
+            if link is not None:
                 if len(expected_reply) > 0 and not resend and \
-                        self.link.needs_resending:
+                        link.needs_resending:
                     pattern = (pk.header,) + expected_reply
                     logger.debug(
                         'Sending packet and expecting the %s pattern back',
@@ -385,7 +392,7 @@ class Crazyflie():
                         logger.debug('Resend requested, but no pattern found: %s',
                                      self._answer_patterns)
                         return
-                self.link.send_packet(pk)
+                link.send_packet(pk)
                 self.packet_sent.call(pk)
         finally:
             self._send_lock.release()
